@@ -25,17 +25,28 @@ def children(points, prefix_len, prefix_cost, bound):
 
 def explore(run, bound, visit, root=(), limit=None):
     """Depth-first enumeration below `root`. Returns (executions, truncated)."""
-    stack = [list(root)]
+    stack = [(list(root), None)]
     nexec = 0
     while stack:
-        prefix = stack.pop()
+        prefix, expected = stack.pop()
         x = run(prefix)
         nexec += 1
+        # determinism self-check: while replaying the parent's prefix every choice point must
+        # offer exactly as many events as it did in the parent execution, and the first execution
+        # of every exploration is run twice and must produce the same event trace
+        got = [n for n, _ in x.points[: len(prefix)]]
+        if expected is not None and got[: len(expected)] != expected:
+            raise RuntimeError(f"nondeterminism leak: replay of {prefix} saw {got}, parent saw {expected}")
+        if nexec == 1 and getattr(x, "trace", None) is not None:
+            y = run(prefix)
+            if y.points != x.points or y.trace != x.trace:
+                raise RuntimeError(f"nondeterminism leak: two runs of {prefix} differ")
         visit(prefix, x)
         if limit is not None and nexec >= limit:
             return nexec, len(stack) > 0
         kids = list(children(x.points, len(prefix), cost(prefix), bound))
-        stack.extend(reversed(kids))
+        counts = [n for n, _ in x.points]
+        stack.extend((kid, counts[: len(kid)]) for kid in reversed(kids))
     return nexec, False
 
 
